@@ -24,7 +24,8 @@ RULE = (
 BUDGET = {"quick": {"examples": 300, "shards": 4}, "thorough": {"fuzz_runs": 3000, "examples": 2000, "shards": 16}}
 EXPECTED_LABELS = ("use:other-thread", "step_fail", "el:init", "el:step", "el:init+step", "el:default", "el:explicit", "use:name", "use:bad-name", "use:spy", "use:real", "use:same-class-instance", "step:default", "step:explicit",
                    "explicit-differs-from-selected", "pair:numpy/SX", "pair:SX/numpy", "pair:MX/numpy", "pair:numpy/MX", "pair:SX/MX",
-                   "interior-ramp", "delta", "merge", "bifurcation", "dest:cong", "origin:main")
+                   "interior-ramp", "delta", "merge", "bifurcation", "dest:cong", "origin:main",
+                   "el:main-origin-default-step-after-init-by-another-engine")
 ASSUMPTIONS = ["a spy delegates every primitive unchanged; engine-created variables are used for the steps"]
 KINDS = ("numpy", "SX", "MX")
 BAD = ["Casadi", "NUMPY", "", "numpy ", " casadi", "jax", "sympy", "Numpy", "casadi.Engine", "engine"]
@@ -80,7 +81,9 @@ class Spy(EngineBase):
 
 @st.composite
 def cases(draw):
-    sp = draw(gen_nets.specs(max_ops=6, force_delta_phi=draw(st.booleans())))
+    # half of the networks have mainstream origins at all their sources (the only origin kind with a state and a
+    # flow law of its own, i.e. the element where element-level engine selection is observable on two primitives)
+    sp = draw(gen_nets.specs(max_ops=6, force_delta_phi=draw(st.booleans()), origin_kinds=draw(st.sampled_from([None, ("main",)]))))
     spies = [draw(st.sampled_from(KINDS)) for _ in range(3)]
     if draw(st.booleans()):
         spies = [spies[0]] * 3  # same kind: selections and explicit engines can be mixed at element level
@@ -243,10 +246,12 @@ def check_case(case, ctx):
                     continue
                 queued = [j for j in stateful if j.startswith("O")]
                 mains = [o["id"] for o in sp["origins"] if o["kind"] == "main"]
-                pool = mains if (mains and op[2] % 3 == 0) else queued if (queued and op[2] % 2 == 0) else stateful
+                pool = mains if (mains and op[2] % 3 != 0) else queued if (queued and op[2] % 2 == 0) else stateful
                 i = pool[(op[2] // 2) % len(pool)]
                 if last_full_engine is not None and X is not last_full_engine and i.startswith("O"):
                     ctx.label("el:origin-with-engine-other-than-last-full-step")
+                if last_full_engine is not None and X is not last_full_engine and i in mains and op[3] is None and op[1] == "step":
+                    ctx.label("el:main-origin-default-step-after-init-by-another-engine")
                 el = els[i]
                 ctx.label("el:" + op[1], "el:default" if op[3] is None else "el:explicit")
                 logs_before = [len(s.log) for s in spies]
